@@ -190,6 +190,17 @@ def AllFetchable (s : St) : Prop := ∀ r ∈ s.db.rows, fetchOk s.store r = tru
 
 instance (s : St) : Decidable (AllFetchable s) := by unfold AllFetchable; infer_instance
 
+/-- the row's COMPLETE cache file with the acknowledged literal is in the store: `FETCH BODY[]` needs nothing from
+    the connector (which may not be able to serve the literal any more) -/
+def cachedOk (st : Store) (r : Row) : Bool :=
+  match st r.id with
+  | some (.complete l) => l == r.lit
+  | _ => false
+
+def AllCached (s : St) : Prop := ∀ r ∈ s.db.rows, cachedOk s.store r = true
+
+instance (s : St) : Decidable (AllCached s) := by unfold AllCached; infer_instance
+
 /-- no cache file without a row, no row marked for deletion -/
 def NoLeftovers (s : St) : Prop :=
   (∀ id, s.store id ≠ none → s.db.hasRow id = true) ∧ (∀ r ∈ s.db.rows, r.marked = false)
@@ -441,6 +452,42 @@ def stepsOf : String → Nat → Option (List Step)
                  [q "CreateMessages" [new 1]] ++
                  rep nMb [q "MailboxFilterContains", q "GetMailboxMessageCountAndUID", q "AddMessagesToMailbox"]) ++
             (if inst = 2 then [] else applyTx))
+  -- user.applyMessagesCreated naming messages the server ALREADY HAS (GetMessageIDFromRemoteID finds the row): nothing is
+  -- stored or created for them, they are only added to the mailboxes that do not hold them yet.
+  --   0: c1 (known) -> mb2        1: batch [c1 known, c2 new, c2 again, c1 again] -> mb1 (the repeated NEW message is
+  --   resolved through `messagesToCreateFilter`, the repeated KNOWN one through the database again)
+  --   2: c1 (known) -> INBOX, where it already is: a transaction without any write
+  | "cknown", inst =>
+      if inst = 0 then some (txS [q "GetMessageIDFromRemoteID", q "GetMailboxIDFromRemoteID", q "MailboxFilterContains",
+                                  q "GetMailboxMessageCountAndUID", q "AddMessagesToMailbox"])
+      else if inst = 1 then some (
+        txS ([q "GetMessageIDFromRemoteID", q "GetMailboxIDFromRemoteID", q "GetMessageIDFromRemoteID", q "GetMessageIDFromRemoteID"] ++
+             setS (new 1) ++ [q "CreateMessages" [new 1], q "MailboxFilterContains", q "GetMailboxMessageCountAndUID", q "AddMessagesToMailbox"]) ++
+        applyTx)
+      else some (txS [q "GetMessageIDFromRemoteID", q "GetMailboxIDFromRemoteID", q "MailboxFilterContains"])
+  -- COPY / MOVE into a mailbox that already holds (one of) the message(s): actionAddMessagesToMailbox /
+  -- actionMoveMessages first REMOVE the message from the destination and add it again (new UID) - one transaction
+  | "dupcopy", inst =>
+      if inst = 1 then some (
+        rdS ["GetMailboxByID"] ++ rdS ["GetMailboxByName"] ++
+        txS [q "MailboxFilterContains", q "MailboxFilterContains", q "RemoveMessagesFromMailbox", q "GetMailboxMessageCountAndUID",
+             q "RemoveMessagesFromMailbox", q "AddMessagesToMailbox"] ++
+        updatesTx ++ flushTx ++ flushTx)
+      else some (
+        rdS ["GetMailboxByID"] ++ rdS ["GetMailboxByName"] ++
+        txS [q "MailboxFilterContains", q "RemoveMessagesFromMailbox", q "GetMailboxMessageCountAndUID", q "AddMessagesToMailbox"] ++
+        updatesTx ++ flushTx)
+  -- RENAME on non-empty hierarchies. 0 / 2: RENAME INBOX arch (INBOX holds messages; 2: and has an inferior with a
+  -- message): destination created and ALL messages moved in the SAME transaction. 1: RENAME of the selected mailbox with
+  -- messages and an inferior that holds a message: the inferiors are renamed one by one in the same transaction.
+  | "rename2", inst =>
+      if inst = 1 then some (txS [q "GetMailboxByName", q "MailboxExistsWithName", q "RenameMailboxWithRemoteID", q "GetAllMailboxesWithAttr",
+                                  q "GetMailboxByName", q "RenameMailboxWithRemoteID"])
+      else some (txS [q "GetMailboxByName", q "MailboxExistsWithName", q "MailboxExistsWithRemoteID", q "CreateMailbox",
+                      q "GetMailboxMessageIDPairs", q "MailboxFilterContains", q "MailboxFilterContains",
+                      q "GetMailboxMessageCountAndUID", q "RemoveMessagesFromMailbox", q "AddMessagesToMailbox"] ++ updatesTx)
+  -- DELETE of mailboxes that hold messages (leaf below a non-empty mailbox; the selected mailbox with an inferior; INBOX/kid)
+  | "delete2", _ => some (txS [q "GetMailboxByName", q "DeleteMailboxWithRemoteID"] ++ updatesTx)
   -- user.applyMessageFlagsUpdated
   | "cflags", inst => some (
       rdS ["MessageExistsWithRemoteID"] ++
@@ -486,7 +533,8 @@ def stepsOf : String → Nat → Option (List Step)
 /-- the operations and instances the model covers (the fault enumeration and the trace tie use these) -/
 def modelledOps : List String :=
   ["append", "copy", "move", "expunge", "create", "delete", "rename", "store", "subscribe",
-   "ccreate", "cflags", "cmailboxes", "cdeleted", "cupdated", "logout", "redownload"]
+   "ccreate", "cflags", "cmailboxes", "cdeleted", "cupdated", "logout", "redownload",
+   "cknown", "dupcopy", "rename2", "delete2"]
 
 /-- ids the operation re-downloads: `getLiteral` does this only for messages that are not recovered ones -/
 def redlOf (op : String) : List MsgId := if op = "redownload" then [.old 1] else []
@@ -506,12 +554,31 @@ def appendRecoveryHandler : List Step :=
 /-- index of the first step of `AppendRegular` in the APPEND step list (earlier failures just answer NO) -/
 def appendRegularStart : Nat := 4
 
+/-- index of the last step of `AppendRegular` (the commit of the second transaction of `stateDBWrite`); a failure of
+    the flush that follows does not reach `Mailbox.Append`'s recovery branch -/
+def appendRegularEnd : Nat := 16
+
+/-- index (in `Step`s) of the first commit of a step list (its length if there is none) -/
+def firstCommit (steps : List Step) : Nat := steps.findIdx (fun st => match st with | .commit => true | _ => false)
+
 open MsgId in
-/-- what the operation does after step `i` failed -/
-def handlerOf (op : String) (i : Nat) : List Step :=
-  if op = "append" then (if appendRegularStart ≤ i then appendRecoveryHandler else [])
-  -- applyMessagesCreated: "Clean up cache messages that were created if the transaction failed"
-  else if op = "ccreate" then [.del [new 1]]
+/-- what the operation does after step `i` (index in `Step`s) of instance `inst` failed.
+    `applyMessagesCreated`: "Clean up cache messages that were created if the transaction failed" - the clean-up ranges
+    over `messagesToCreate`, the NEW messages of the update (a message is entered there when `GetMessageIDFromRemoteID`
+    has answered not-found for it); messages of the update that the server already had are not touched. So the handler
+    deletes the file of `new 1` when the failing step lies after the look-up of the new message and not after the commit of
+    the update's transaction, and nothing otherwise. -/
+def handlerOf (op : String) (inst i : Nat) : List Step :=
+  if op = "append" then (if appendRegularStart ≤ i ∧ i ≤ appendRegularEnd then appendRecoveryHandler else [])
+  else if op = "ccreate" then
+    (if 2 ≤ i ∧ i ≤ firstCommit ((stepsOf op inst).getD []) then [.del [new 1]] else [])
+  else if op = "cknown" ∧ inst = 1 then
+    (if 4 ≤ i ∧ i ≤ firstCommit ((stepsOf op inst).getD []) then [.del [new 1]] else [])
   else []
+
+/-- STRUCTURAL FACT 3 (`fail_listed_is_cached`): the error handler that runs after step `i` failed (the open transaction
+    has been rolled back) keeps the store discipline, from the abstract state the first `i` steps lead to -/
+def handlerOk (steps handler : List Step) (i : Nat) (redl : List MsgId := []) : Bool :=
+  disciplinedFrom handler { (steps.take i).foldl Abs.exec { redl := redl } with tx := none }
 
 end Gluon.Crash
